@@ -225,7 +225,12 @@ class ServerReceiving(Unit):
         self.reqs.init(st)
         self.shutdown = z3.Const('shutdown_path', Val)
         self.me = Rec(ex, 'self')
-        self.me.volatile['to_shutdown'] = lambda e, s: [('ok', s, fresh('to_shutdown', z3.BoolSort()))]     # shared with the other connections
+        def read_flag(e, s):
+            b = fresh('to_shutdown', z3.BoolSort())
+            s = s.fork()
+            s.ghost['flag_seen'] = b          # what the last look at the shutdown flag answered
+            return [('ok', s, b)]
+        self.me.volatile['to_shutdown'] = read_flag     # shared with the other connections
         self.me.init(st, _shutdown_path=self.shutdown,
                      app=Rec(ex, 'app', immutable=True, methods={'handle_request': Fn(lambda e, s, a, k, n: [('ok', s, self.handle(box(e, a[0]), box(e, a[1])))])}))
         st.cells.update(self=self.me, reqs=self.reqs, reader=Rec(ex, 'reader'))
@@ -290,7 +295,12 @@ class ServerResponding(Unit):
         st.ghost['nwritten'] = z3.IntVal(0)
         self.encoder = z3.Const('encoder', Val)
         self.me = Rec(ex, 'self', immutable=True).init(st, to_shutdown=fresh('to_shutdown', z3.BoolSort()), _encoder=self.encoder)
-        self.me.volatile['to_shutdown'] = lambda e, s: [('ok', s, fresh('to_shutdown', z3.BoolSort()))]
+        def read_flag(e, s):
+            b = fresh('to_shutdown', z3.BoolSort())
+            s = s.fork()
+            s.ghost['flag_seen'] = b          # what the last look at the shutdown flag answered
+            return [('ok', s, b)]
+        self.me.volatile['to_shutdown'] = read_flag
         self.writer = Rec(ex, 'writer')
         st.cells.update(self=self.me, reqs=self.reqs, writer=self.writer)
 
@@ -340,6 +350,8 @@ class ServerResponding(Unit):
                 ex.oblige(s, 'exit: the responder does not die with an exception (every request gets a response, even when its handler raises -- any Exception, TimeoutError included)', z3.Not(V.isinst(p, 'Exception')))
             else:
                 ex.oblige(s, 'exit: every request taken from the queue was answered', s.ghost['nwritten'] == self.reqs.nget(s))
+                ex.oblige(s, 'exit: the responder only ends once it has seen the shutdown flag set (an idle moment is not the end: requests still to come on this connection must be answered)',
+                          s.ghost['flag_seen'] if s.ghost.get('flag_seen') is not None else z3.BoolVal(False))
 
 
 class Pending:
